@@ -662,6 +662,35 @@ def Reader.readDataCb (r : Reader) (inflate : Nat → List UInt8 → Option (Lis
                   else .err .compressionWrongSize
           | none => if failAlloc then .err .callback else .ok raw
 
+/-- the first outcome that is not `ok` (the `?` / panic propagation of a loop) -/
+def firstFailure : List (Outcome Unit) → Outcome Unit
+  | [] => .ok ()
+  | .ok () :: rest => firstFailure rest
+  | .err e :: _ => .err e
+  | .panic s :: _ => .panic s
+
+def Outcome.void {α : Type} : Outcome α → Outcome Unit
+  | .ok _ => .ok ()
+  | .err e => .err e
+  | .panic s => .panic s
+
+/-- `Reader::debug_dump` with debug logging enabled: `item_type(i)` for every type index,
+`item(k)` for every index of `item_type_indices(type)` (the byte arithmetic of `i32_to_bytes`
+stays within `i32`: `((x >> 24) & 0xff) - 0x80 ∈ [-128, 127]`), then `read_data(i)?` for every
+data index. -/
+def Reader.debugDump (r : Reader) (inflate : Nat → List UInt8 → Option (List UInt8)) : Outcome Unit :=
+  firstFailure
+    (((List.range r.numItemTypes.toNat).flatMap fun i =>
+        match r.itemType i with
+        | .ok t =>
+          match r.itemTypeIndices t with
+          | .ok (a, b) => ((List.range (b - a)).map fun j => (r.item (a + j)).void)
+          | .err e => [.err e]
+          | .panic s => [.panic s]
+        | .err e => [.err e]
+        | .panic s => [.panic s])
+      ++ (List.range r.numData.toNat).map fun i => (r.readData inflate i).void)
+
 /-! ## Writer (independent of the reader): versions 3 and 4 -/
 
 structure Item where
